@@ -51,7 +51,23 @@ def main():
         except BaseException as e:     # incl. simnet's Idle/Stall/ReadBudget escaping a harness
             ctx.disagree('correspondence harness could not run against this tree', repr(e),
                          None, traceback.format_exc()[-2500:])
-        if (audit['failed'] or ctx.disagreements) and not ctx.violations:
+        import fingerprint
+        drift = fingerprint.changed(pid)
+        ctx.extra['anchor_files_changed_since_validation'] = drift
+        if drift and not ctx.violations and not (audit['failed'] or ctx.disagreements):
+            # modelled code has changed since the models were last validated against it: not a verdict,
+            # but a reason to look harder — run the failing-input search (thorough volumes) right away
+            ctx.searching = True
+            ctx.notes.append('anchor files changed (%s): correspondence and oracle re-run with thorough volumes'
+                             % ', '.join(drift))
+            try:
+                (getattr(mod, 'search', None) or mod.run)(ctx)
+            except (lib.InfraError, KeyboardInterrupt, SystemExit):
+                raise
+            except BaseException as e:
+                ctx.disagree('correspondence harness could not run against this tree (escalated run)', repr(e),
+                             None, traceback.format_exc()[-2500:])
+        elif (audit['failed'] or ctx.disagreements) and not ctx.violations:
             # broken proof or correspondence is not by itself a violation: search the
             # implementation for a concrete failing input with a larger budget
             ctx.searching = True
